@@ -371,9 +371,11 @@ def _lists(chk, D, Dsub):
                 R = po._polynomial_multiply(P, Q, t, psi, clmo, enc)
                 _fail("multiply", f"_polynomial_multiply truncated at {t}", polyx.list_to_dict(R), polyx.d_mul(pd, qd, t))
             one = alg.const(1)
-            for k in (0, 1, 2, 3):
-                R = po._polynomial_power(P, k, 4, psi, clmo, enc)
-                _fail("power", f"_polynomial_power k={k} truncated at 4", polyx.list_to_dict(R), polyx.d_pow(pd, k, one, 4))
+            # truncation must bite for some (k, t): (non-homogeneous P)^k truncated below k*deg P
+            for t in (2, 3, 4):
+                for k in (0, 1, 2, 3, 4):
+                    R = po._polynomial_power(P, k, t, psi, clmo, enc)
+                    _fail("power", f"_polynomial_power k={k} truncated at {t}", polyx.list_to_dict(R), polyx.d_pow(pd, k, one, t))
             R = po._polynomial_poisson_bracket(P, Q, 2, psi, clmo, enc)
             _fail("poisson-bracket", "_polynomial_poisson_bracket truncated at 2", polyx.list_to_dict(R),
                   {k: v for k, v in polyx.d_poisson(pd, qd).items() if sum(k) <= 2})
